@@ -260,12 +260,10 @@ class ModelObject:
             except KeyError:
                 pass
 
-        if type_ == "collection":
-            # items appended to a collection are named by their position; restore
-            # the counter so the loaded collection is equal to the one saved
-            positions = [int(key) for key in d["arguments"] if str(key).isdigit()]
-            if positions:
-                instance.item_number = max(positions) + 1
+        if type_ == "collection" and "item_number" in d:
+            # the number of items appended so far: restored so that the loaded
+            # collection is equal to the one saved and appends to the next position
+            instance.item_number = d["item_number"]
 
         if "assertions" in d:
             instance.assertions = [
@@ -315,6 +313,9 @@ class ModelObject:
 
         if assertions:
             dict_["assertions"] = assertions
+
+        if type_ == "collection" and self.item_number:
+            dict_["item_number"] = self.item_number
 
         arguments = {}
 
